@@ -154,6 +154,8 @@ def main(tier: str) -> int:
         if not res.ok:
             run.machinery(f'temporal clauses failed: {res.violated or res.error}')
 
+    close_under_interference(run, rng)
+
     run.notes['observations'] = sorted(ex.notes)[:12]
     run.cov['exhaustive'] = not info['uncovered']
     run.notes['exhaustive_scope'] = (
@@ -162,6 +164,67 @@ def main(tier: str) -> int:
         'mailbox, scratch mailbox rw/ro} x data markers) executed with state '
         'identification after each input; thorough tier: every input sequence of length <= 2 from every initial state')
     return run.finish()
+
+
+def close_under_interference(run, rng) -> None:
+    """Conn.tla: Effect("CLOSE") is OK + deselect in EVERY selected state - the model has no
+    state in which it could fail.  The graph replay runs one connection; here the states are
+    reached with a second session having changed the selected mailbox first (expunged what A
+    still sees, deleted it, renamed it away, replaced it by another of the same name)."""
+    from ..server import World
+    others = {
+        'expunge': [b'SELECT Work', b'STORE 1:* +FLAGS (\\Deleted)', b'EXPUNGE'],
+        'expunge-one': [b'SELECT Work', b'STORE 1 +FLAGS (\\Deleted)', b'EXPUNGE', b'CLOSE'],
+        'delete': [b'DELETE Work'],
+        'rename': [b'RENAME Work Elsewhere'],
+        'replace': [b'DELETE Work', b'CREATE Work', b'APPEND Work {7+}\r\nA: b\r\n\r\n'],
+        'append': [b'APPEND Work {7+}\r\nA: b\r\n\r\n'],
+    }
+    n = 0
+    for how in (b'SELECT', b'EXAMINE'):
+        for deleted in (True, False):
+            for name, cmds in others.items():
+                w = World('dict', demo=False, users={'user1': 'pass1'},
+                          config_kw={'bad_command_limit': None})
+                log = []
+                try:
+                    for s in ('a', 'b'):
+                        c = w.connect(s)
+                        c.take()
+                        w.login(s)
+                    w.cmd('b', b'CREATE Work')
+                    for _ in range(3):
+                        w.cmd('b', b'APPEND Work {7+}\r\nA: b\r\n\r\n')
+                    if deleted:
+                        w.cmd('b', b'SELECT Work')
+                        w.cmd('b', b'STORE 2 +FLAGS (\\Deleted)')
+                        w.cmd('b', b'CLOSE' if name != 'expunge' else b'NOOP')
+                    out = w.cmd('a', how + b' Work')
+                    log.append((how, out[-60:]))
+                    if b' OK ' not in out:
+                        run.machinery(f'close-under-interference: {how!r} Work failed: {out!r}')
+                        return
+                    for c_ in cmds:
+                        log.append(('b', c_, w.cmd('b', c_)[-60:]))
+                    out = w.cmd('a', b'CLOSE')
+                    closed = w.conns['a'].done
+                    after = b'' if closed else w.cmd('a', b'FETCH 1 FLAGS')
+                    n += 1
+                    run.count_exec(('close-under', how, deleted, name), nontrivial=True)
+                    ok = b' OK ' in out.split(b'\r\n')[-2] if out else False
+                    desel = b' BAD ' in after
+                    if not ok or not desel or closed or b'SERVERBUG' in out:
+                        run.violation(
+                            f'CLOSE after another session did [{name}] to the {how.decode()}ed mailbox: '
+                            f'answered {out[-120:]!r}, a message command afterwards {after[-80:]!r} '
+                            f'(Conn.tla CloseDeselects: CLOSE always succeeds and deselects)',
+                            {'check': 'C05', 'part': 'close-under-interference', 'how': how.decode(),
+                             'deleted_present': deleted, 'other': name},
+                            'SelectionBoundToName' if name == 'replace' and how == b'SELECT'
+                            and b'SERVERBUG' in out else None)
+                finally:
+                    w.close()
+    run.notes['close_under_interference'] = n
 
 
 def replay(path: str) -> int:
